@@ -140,6 +140,20 @@ CHECKS = {
         design_ref='DESIGN.md §5 C13',
         note='whitespace-only gaps (comments inside clauses are outside C13); one class-level recorded finding',
         technique='TLA+ grammar with structure annotations (TLC-generated programs) + TLC validation of node extents and accessors'),
+    'C14': dict(
+        category='model_checking',
+        text=("LexChars.tla is a character-level model of the rule table over 28 character classes: every reachable rule is an "
+              "operator written from its regular expression with its priority semantics (greedy/lazy, alternation order, back-tracking "
+              "against look-aheads, look-behinds). TLC checks on it, for 7 region kinds x 56 contexts x all bodies up to the bound "
+              "(doubled quotes allowed, terminator and backslash excluded), that the region is exactly one token of its type and no `;` "
+              "token lies inside. The model is bound to the code: every class string up to the bound is emitted with its predicted "
+              "tokens and compared with the real lexer under canonical and random class members (0 disagreements on the unchanged tree); "
+              "TLC-simulated region instances with bodies up to 12 symbols are concretised over the full character set and validated by "
+              "TLC (TraceLexScan region clauses). KeywordTable.tla (dictionaries and dedicated-rule words extracted from the tree) gives "
+              "each word's type by the first listing dictionary; every word x 4 casings x contexts is lexed and compared."),
+        design_ref='DESIGN.md §5 C14',
+        note='rules needing characters outside the class alphabet (hex, exponent, %s, @name, [name]) are not in LexChars; long bodies are sampled',
+        technique='character-level TLA+ lexer model checked by TLC + model-vs-lexer replay + TLC trace validation of region instances + TLA+ keyword table'),
     'C15': dict(
         category='fault_enumeration',
         text=("Pipeline.tla says where a RecursionError can arise and that it is always translated (TLC, all entry points x stages); "
